@@ -116,7 +116,7 @@ Fixpoint prog_ok (same : list ev -> list ev -> bool) (pre ops : list op)
     reading above (theorem [exec_inv]). *)
 Definition plain_op (o : op) : bool :=
   match o with
-  | OStop _ => false
+  | OStop _ | OStartAsync | OSnap _ => false
   | OAddPubDec _ (S _) | OAddSubDec _ (S _) => false
   | _ => true
   end.
